@@ -4,6 +4,7 @@ from pyvc.contracts import Contract
 from pyvc.driver import Unit
 from pyvc.values import fresh, Sym
 from pyvc.state import mk
+from pyvc import ops
 
 TERRAPIN = "vulnerable to the Terrapin attack (CVE-2023-48795), allowing message prefix truncation"
 
@@ -132,3 +133,92 @@ for role in ('server', 'client'):
             fail(inp, {'recommended for addition': bad}, {'recommended for addition': 'no ChaCha20-Poly1305 / CBC / ETM algorithm'})
 print(json.dumps({'cases': cases, 'failures': failures}))
 '''
+
+
+# ---------------------------------------------------------------------------------------------------- the rule itself
+# post_process_findings' Terrapin section, against the contracts of its nested helpers: which algorithms receive the warning
+# (recorded by the contract of _add_terrapin_warning), which are named in the advisory note, for arbitrary peers.
+NOTE = ("Be aware that, while this target properly supports the strict key exchange method (via the kex-strict-?-v00@openssh.com marker) needed to protect against the "
+        "Terrapin vulnerability (CVE-2023-48795), all peers must also support this feature as well, otherwise the vulnerability will still be present.  The following "
+        "algorithms would allow an unpatched peer to create vulnerable SSH channels with this target: %s.  If any CBC ciphers are in this list, you may remove them while "
+        "leaving the *-etm@openssh.com MACs in place; these MACs are fine while paired with non-CBC cipher types.")
+ENC = "(g_cenc if client_audit else g_senc)"
+MAC = "(g_cmac if client_audit else g_smac)"
+
+
+def add_warning_recorder(ip, st):
+    fr = st.frame
+    cat, name = fr['category'], fr['algorithm_name']
+    key = 'marked_' + cat
+    cur = st.ghost[key]
+    import ast as _ast
+    st.ghost[key] = ops.binop(ip, st, _ast.Add(), cur, st.new_list([name], 'str'))
+    return None
+
+
+def setup_body(ip, st, fr, case):
+    from contracts.c02_status import make_kex
+    kex, g = make_kex(ip, st)
+    fr['algs'] = st.new_obj('Algorithms', {'_Algorithms__ssh1kex': None, '_Algorithms__ssh2kex': kex})
+    fr['client_audit'] = fresh('client_audit', 'bool')
+    fr['banner'] = None
+    fr['dh_rate_test_notes'] = fresh('rate_notes', 'str')
+    for k in ('cenc', 'senc', 'cmac', 'smac', 'kex'):
+        fr['g_' + k] = g[k]
+    st.ghost['marked_enc'] = st.new_symlist(z3.Empty(z3.SeqSort(z3.StringSort())), 'str')
+    st.ghost['marked_mac'] = st.new_symlist(z3.Empty(z3.SeqSort(z3.StringSort())), 'str')
+    st.ghost['db'] = st.new_obj('<db>', {})
+    return {}
+
+
+def body_stubs():
+    P = 'ssh_audit:post_process_findings.'
+    S = [Contract(P + '_add_terrapin_warning', mode='contract', result=add_warning_recorder, modifies=[], ensures=[],
+                  note='recorder: the (category, name) pairs passed are the algorithms that receive the warning; its effect on the table is proved in the unit of the same name'),
+         Contract(P + '_get_chacha_ciphers_enabled', mode='contract', result='list[str]', modifies=[],
+                  ensures=["result == filter_chacha(algs.ssh2kex.client.encryption if client_audit else algs.ssh2kex.server.encryption)"], note='proved (unit of the same name)'),
+         Contract(P + '_get_cbc_ciphers_enabled', mode='contract', result='list[str]', modifies=[],
+                  ensures=["result == filter_cbc(algs.ssh2kex.client.encryption if client_audit else algs.ssh2kex.server.encryption)"], note='proved (unit of the same name)'),
+         Contract(P + '_get_etm_macs_enabled', mode='contract', result='list[str]', modifies=[],
+                  ensures=["result == filter_etm(algs.ssh2kex.client.mac if client_audit else algs.ssh2kex.server.mac)"], note='proved (unit of the same name)')]
+    for n in ('_get_chacha_ciphers_not_enabled', '_get_cbc_ciphers_not_enabled', '_get_etm_macs_not_enabled'):
+        S.append(Contract(P + n, mode='contract', result='list[str]', modifies=[], ensures=[], note='suppression lists: covered by the bounded check only'))
+    S.append(Contract('SSH2_KexDB.get_db', mode='contract', result=lambda ip, st: st.ghost['db'], modifies=[], ensures=[]))
+    return S
+
+
+def body_units():
+    CH, CB, ET = "filter_chacha(%s)" % ENC, "filter_cbc(%s)" % ENC, "filter_etm(%s)" % MAC
+    S = "kex_strict_marker"
+    vul = "(len(%s) > 0 and len(%s) > 0)" % (CB, ET)
+    strict = ("((client_audit and 'kex-strict-c-v00@openssh.com' in g_kex) or (not client_audit and 'kex-strict-s-v00@openssh.com' in g_kex))")
+    noted = "(%s + (%s + %s if %s else []))" % (CH, CB, ET, vul)
+    def both(ghost_or_var, strict_val, plain_val, S_=S):
+        return ["implies(%s, %s == %s)" % (S_, ghost_or_var, strict_val), "implies(not %s, %s == %s)" % (S_, ghost_or_var, plain_val)]
+    loops = {
+        # (loop ordinals in source order inside the function body, nested helper definitions excluded)
+        'chacha': dict(invariant=both("ghost('marked_enc')", "[]", "%s[:_k]" % CH) + both("algs_to_note", "%s[:_k]" % CH, "[]"), ghost=['marked_enc'], types={'algs_to_note': 'list[str]'}),
+        'cbc': dict(invariant=both("ghost('marked_enc')", "[]", "%s + cbc_ciphers_enabled[:_k]" % CH) + both("algs_to_note", "%s + cbc_ciphers_enabled[:_k]" % CH, "[]"),
+                    ghost=['marked_enc'], types={'algs_to_note': 'list[str]'}),
+        'etm': dict(invariant=both("ghost('marked_mac')", "[]", "etm_macs_enabled[:_k]") + both("algs_to_note", "%s + cbc_ciphers_enabled + etm_macs_enabled[:_k]" % CH, "[]"),
+                    ghost=['marked_mac'], types={'algs_to_note': 'list[str]'}),
+    }
+    ens = []
+    # exactly the algorithms of the published rule receive the warning, and only when the peer lacks its own strict-kex marker
+    ens += both("ghost('marked_enc')", "[]", "%s + %s" % (CH, CB), "(%s) or not %s" % (strict, vul))[:1] + ["implies(not (%s) and %s, ghost('marked_enc') == %s + %s)" % (strict, vul, CH, CB),
+                                                                                                   "implies(not (%s) and not %s, ghost('marked_enc') == %s)" % (strict, vul, CH)]
+    ens[0] = "implies(%s, ghost('marked_enc') == [])" % strict
+    ens += ["implies((%s) or not %s, ghost('marked_mac') == [])" % (strict, vul), "implies(not (%s) and %s, ghost('marked_mac') == %s)" % (strict, vul, ET)]
+    # with the marker, the same algorithms are named in one advisory note instead (none when there is nothing to name); the rate-test note follows
+    rate = "([dh_rate_test_notes] if len(dh_rate_test_notes) > 0 else [])"
+    ens += ["implies(not (%s), result[1] == %s)" % (strict, rate),
+            "implies((%s) and %s and len(%s + %s + %s) > 0, result[1] == [%r %% join(', ', %s + %s + %s)] + %s)" % (strict, vul, CH, CB, ET, NOTE, CH, CB, ET, rate),
+            "implies((%s) and not %s and len(%s) > 0, result[1] == [%r %% join(', ', %s)] + %s)" % (strict, vul, CH, NOTE, CH, rate),
+            "implies((%s) and not %s and len(%s) == 0, result[1] == %s)" % (strict, vul, CH, rate)]
+    return ens, loops
+
+
+def body_unit_list(ordinals):
+    ens, loops = body_units()
+    lp = {ordinals['chacha']: loops['chacha'], ordinals['cbc']: loops['cbc'], ordinals['etm']: loops['etm']}
+    return [Unit(Contract('ssh_audit:post_process_findings', setup=setup_body, raises={}, loops=lp, ensures=ens), harness=None)]
